@@ -356,22 +356,33 @@ func (lc *loopCtx) classify(loop ast.Stmt) loopVerdict {
 		if id, ok := cond.(*ast.Ident); ok {
 			if v, isVar := info.Uses[id].(*types.Var); isVar && isBoolType(v.Type()) {
 				key := objKey(v)
-				passes := g.everyIterationPasses(s, func(n ast.Node) bool {
+				isFalse := func(e ast.Expr) bool {
+					tv := info.Types[e]
+					return tv.Value != nil && tv.Value.String() == "false"
+				}
+				reassigns := func(n ast.Node) bool {
 					as, ok := n.(*ast.AssignStmt)
 					if !ok {
 						return false
 					}
-					for _, l := range as.Lhs {
+					for i, l := range as.Lhs {
 						if env.lvalKey(l) == key {
 							for _, r := range as.Rhs {
 								if _, isCall := ast.Unparen(r).(*ast.CallExpr); isCall {
 									return true
 								}
 							}
+							if i < len(as.Rhs) && len(as.Rhs) == len(as.Lhs) && isFalse(as.Rhs[i]) {
+								return true // the flag is cleared: the loop ends
+							}
 						}
 					}
 					return false
-				})
+				}
+				passes := g.everyIterationPasses(s, reassigns)
+				if s.Post != nil && reassigns(s.Post) {
+					passes = true // the post statement runs after every iteration that does not leave the loop
+				}
 				// every assignment to the flag inside the loop must come from a call
 				plain := false
 				inspectNoLit(s.Body, func(x ast.Node) bool {
@@ -384,7 +395,7 @@ func (lc *loopCtx) classify(loop ast.Stmt) loopVerdict {
 								} else if i < len(as.Rhs) {
 									_, isCall = ast.Unparen(as.Rhs[i]).(*ast.CallExpr)
 								}
-								if !isCall {
+								if !isCall && !(i < len(as.Rhs) && len(as.Rhs) == len(as.Lhs) && isFalse(as.Rhs[i])) {
 									plain = true
 								}
 							}
@@ -397,6 +408,20 @@ func (lc *loopCtx) classify(loop ast.Stmt) loopVerdict {
 				}
 				if passes {
 					return loopVerdict{Form: "LP-token", OK: true, Detail: "flag " + id.Name + " is re-assigned from a call on every path through the body (each true result consumed input; finiteness of the input is the callee's)"}
+				}
+				cleared := false
+				inspectNoLit(s.Body, func(x ast.Node) bool {
+					if as, ok := x.(*ast.AssignStmt); ok && len(as.Lhs) == len(as.Rhs) {
+						for i, l := range as.Lhs {
+							if env.lvalKey(l) == key && isFalse(as.Rhs[i]) {
+								cleared = true
+							}
+						}
+					}
+					return true
+				})
+				if cleared {
+					return loopVerdict{Form: "LP-token", Undec: true, Detail: "the flag " + id.Name + " is cleared on some paths only: the loop is a `for { ...; if done { break } }` in disguise, not classified"}
 				}
 				return loopVerdict{Form: "LP-token", Detail: "some path through the body does not re-assign " + id.Name + " from a call: the loop can spin"}
 			}
